@@ -4,7 +4,7 @@
    the parameters it depends on (a finite enumeration evaluated by the kernel), denote the same signal for every
    environment inside the parameter ranges.  It is instantiated per protocol on every run (C02_<p>, repeat_count 0,1,2). *)
 From Coq Require Import ZArith List Bool.
-Require Import PyIR.Proto.Irp.
+Require Import PyIR.Base.Result PyIR.IW.IW PyIR.IW.IWProps PyIR.Engine.Render PyIR.Proto.Model PyIR.Proto.Irp PyIR.Proto.IrpLib.
 Import ListNotations.
 Open Scope Z_scope.
 
@@ -12,6 +12,15 @@ Theorem C02_agreeing_plans_same_signal : forall ranges env, env_ok ranges env ->
   plan_agree ranges a b = true -> forallb (forallb (deps_ok (length ranges))) a = true ->
   plan_signal (inst_plan env a) = plan_signal (inst_plan env b).
 Proof. exact plan_agree_sound. Qed.
+
+(* the model of the library's renderer (IntegerWrapper.timings through a two-entry table, _build_packet with run-compression
+   and frame-period gap) computes the IRP signal of the packet's plan: any lead-in / lead-out, any canonical fields, under a
+   decidable side condition (non-zero tables, frame shorter than its period) *)
+Theorem C02_renderer_computes_the_plan_signal : forall li lo s0 s1 msb fields tw,
+  Forall canonical fields -> total_width fields <= tw -> packet_ok li lo s0 s1 tw = true ->
+  exists l, render_part (PPacket li lo [s0; s1] msb [] fields) = Ok l /\
+            frame_signal (packet_atoms li lo [s0; s1] msb fields) = Some l.
+Proof. exact render_packet_is_irp_b. Qed.
 
 (* the comparison is not idle: a plan with another symbol duration, width, order or period does not agree *)
 Example C02_wrong_constant_detected :
@@ -27,3 +36,4 @@ Example C02_wrong_constant_detected :
 Proof. vm_compute. repeat split. Qed.
 
 Print Assumptions C02_agreeing_plans_same_signal.
+Print Assumptions C02_renderer_computes_the_plan_signal.
